@@ -703,3 +703,77 @@ package main
 //@   ensures [C20] nothing_lost_tags: in != nil && !isnil(in.Tags) ==> res != nil && ref(res.Tags) == ref(in.Tags) && len(res.Tags) == len(in.Tags)
 //@   ensures [C20] nothing_lost_cred: in != nil && in.Cred != nil ==> res != nil && res.Cred != nil
 //@   ensures [C20] sub_survives_tags: in != nil && in.Sub != nil && (in.Sub.UserId != "" || in.Sub.Mode != "") && !isnil(in.Tags) ==> res != nil && res.Sub != nil && !isnil(res.Tags)
+
+// ---------------------------------------------------------------------------------------------------------
+// C14 (the schedule-independent part): data shared between goroutines under a lock is touched only with that lock
+// held. `locksafe` turns every read and write of a guarded field into an obligation; objects a function has just
+// created and not yet published are exempt.
+//@ guarded Session.subs by subsLock
+//@ guarded SessionStore.sessCache, SessionStore.lru by lock
+//@ guarded ClusterNode.msess by lock
+
+//@ func (s *Session) addSub(topic string, sub *Subscription)
+//@   requires [C14] s != nil
+//@   modifies inferred
+//@   locksafe
+//@ func (s *Session) getSub(topic string) (sub *Subscription)
+//@   requires [C14] s != nil
+//@   modifies inferred
+//@   locksafe
+//@ func (s *Session) delSub(topic string)
+//@   requires [C14] s != nil
+//@   modifies inferred
+//@   locksafe
+// countSub takes no lock itself: its callers must hold one.
+//@ func (s *Session) countSub() (n int)
+//@   requires [C14] s != nil && (s.multi == nil ==> rheld(s.subsLock)) && (s.multi != nil ==> s.multi.multi == nil && rheld(s.multi.subsLock))
+//@   modifies nothing
+//@   locksafe
+//@ func (s *Session) unsubAll()
+//@   requires [C14] s != nil
+//@   modifies *
+//@   locksafe
+//@ func (s *Session) onBackgroundTimer()
+//@   requires [C14] s != nil
+//@   modifies *
+//@   locksafe
+//@ func (ss *SessionStore) NewSession(conn any, sid string) (s *Session, count int)
+//@   requires [C14] ss != nil
+//@   modifies *
+//@   locksafe
+//@ func (ss *SessionStore) Get(sid string) (s *Session)
+//@   requires [C14] true
+//@   modifies inferred
+//@   locksafe
+//@ func (ss *SessionStore) Delete(s *Session)
+//@   requires [C14] ss != nil && s != nil
+//@   modifies *
+//@   locksafe
+//@ func (ss *SessionStore) Range(f func(sid string, s *Session) bool)
+//@   requires [C14] ss != nil
+//@   modifies *
+//@   locksafe
+//@ func (ss *SessionStore) Shutdown()
+//@   requires [C14] ss != nil
+//@   modifies *
+//@   locksafe
+//@ func (ss *SessionStore) EvictUser(uid types.Uid, skipSid string)
+//@   requires [C14] ss != nil
+//@   modifies *
+//@   locksafe
+//@ func (ss *SessionStore) NodeRestarted(nodeName string, fingerprint int64)
+//@   requires [C14] ss != nil
+//@   modifies *
+//@   locksafe
+//@ func (n *ClusterNode) stopMultiplexingSession(msess *Session)
+//@   requires [C14] n != nil
+//@   modifies *
+//@   locksafe
+//@ func (c *Cluster) gcProxySessionsForNode(node string)
+//@   requires [C14] c != nil
+//@   modifies *
+//@   locksafe
+//@ func serveStatus(wrt http.ResponseWriter, req *http.Request)
+//@   requires [C14] wrt != nil && req != nil
+//@   modifies *
+//@   locksafe
